@@ -173,7 +173,7 @@ func (d *Device) handleABSEvent(ie *input.InputEvent) {
 	if seen && lastValue == value {
 		return
 	}
-	d.lastAnalogValue[ie.Source.Name][ie.Event.Code] = value
+	shapedValue := value
 
 	if analog.FlipAxis {
 		if canBeNegative {
@@ -189,6 +189,9 @@ func (d *Device) handleABSEvent(ie *input.InputEvent) {
 		(analog.MappingType == config.AnalogCC || analog.MappingType == config.AnalogPitchBend) {
 		return
 	}
+	// only a value that got through is remembered: a position that was held back while learning must not count as
+	// "already sent" when it is reported again afterwards (the receiver would keep the learning-time value at rest)
+	d.lastAnalogValue[ie.Source.Name][ie.Event.Code] = shapedValue
 
 	if !d.noLogs {
 		log.Info(fmt.Sprintf("Analog event: %s", ie.Event.String()), d.logFields(
